@@ -95,6 +95,7 @@ def run(chk):
     terms = [f'run ({rlit(t)}) {depth(t) + 1}' for t in tlist]
     model = core.run_coq_cases('C14', IMPORTS, terms, chunk=80, tag='paths') if model_ok else [None] * len(tlist)
     parsers = [XPath30Parser(), XPath31Parser()]
+    P31 = parsers[1]
 
     def children_kinds(node):
         return [c for c in node.children]
@@ -183,6 +184,36 @@ def run(chk):
                             ok, got = False, 'error ' + str(ex.code)
                         if not ok:
                             chk.violation('impl-vs-spec', desc0, {'etree_iter_paths': p, 'selects': got, 'expected_node': index[id(target)]})
+        # fragment roots (an element as the root of its tree, fragment=True): fn:path starts with fn:root() and selects the node back
+        if ti % (4 if quick else 1) == 0:
+            for lib in ('et', 'lxml'):
+                elem = trees.to_et(t) if lib == 'et' else trees.to_lxml(t)
+                nodeF = get_node_tree(elem, fragment=True)
+                seen = {}
+                for k, n in enumerate(nodeF.iter()):
+                    chk.evaluations += 1
+                    chk.count('fragment root: fn:path')
+                    desc = {'lib': lib, 'mode': 'fragment', 'tree': trees.serialize(t)[:500], 'node_index': k}
+                    try:
+                        ptxt = P31.parse('path(.)').evaluate(XPathContext(nodeF, item=n, fragment=True))
+                        back = list(P31.parse(ptxt).select(XPathContext(nodeF, fragment=True)))
+                    except Exception as e:
+                        chk.violation('foreign-exception' if not isinstance(e, ElementPathError) else 'impl-vs-spec', desc, repr(e)[:200])
+                        continue
+                    if len(back) != 1 or back[0] is not n:
+                        chk.violation('impl-vs-spec', desc, {'fn:path': ptxt, 'selects': len(back)})
+                    if ptxt in seen:
+                        chk.violation('impl-vs-spec', desc, {'fn:path': ptxt, 'also the path of node': seen[ptxt]})
+                    seen[ptxt] = k
+                    chk.nontrivial.add((ti, lib, 'fragment', k))
+                    # the path property does not know the evaluation mode: it is written for the dummy document of an element root
+                    try:
+                        back2 = list(P31.parse(n.path).select(XPathContext(nodeF, fragment=True)))
+                    except ElementPathError:
+                        back2 = None
+                    if back2 is None or len(back2) != 1 or back2[0] is not n:
+                        chk.known('C14-path-property-on-fragment-roots', desc | {'node.path': n.path, 'selects': None if back2 is None else len(back2),
+                                                                                 'fn:path': ptxt})
         if ti % 37 == 0 and model[ti] is not None:
             chk.sample({'tree': trees.serialize(t)[:200], 'model (index path, steps, eval)': model[ti][:4]})
     chk.nontrivial = {repr(x) for x in chk.nontrivial}
